@@ -790,7 +790,8 @@ def run(facts, cg):
                                                                                           'core::option::Option::expect', 'core::result::Result::expect') and g.crate == 'bita':
                                 hz = callee_q(gt).split('::')[-1]
                             elif gt['k'] == 'call' and 'q' in gt['callee'] and gt['callee']['q'] == 'core::ops::index::Index::index' and len(gt['args']) == 2 and \
-                                    gt['args'][1]['k'] in ('copy', 'move') and 'Range' in (g.lty(gt['args'][1]['pl']['l']).get('adt') or ''):
+                                    gt['args'][1]['k'] in ('copy', 'move') and 'Range' in (g.lty(gt['args'][1]['pl']['l']).get('adt') or '') and \
+                                    not (g.lty(gt['args'][1]['pl']['l']).get('adt') or '').endswith('RangeFull'):
                                 hz = 'index'        # a range slice `x[..n]` / `x[a..b]`
                             if hz and rets and all(gbi == r_ or gbi in gdom.get(r_, ()) for r_ in rets):
                                 finding('R-DEBUGONLY', b.q, 'panic-in-log:%s@%s' % (hz, g.q.split('::')[-1]), 'the log line at %s calls %s, which can panic on every path through it '
